@@ -64,7 +64,7 @@ def fin_code(fin, converter="basic") -> int:
         return fin[1]
     if k == "timeout":
         return EXC_CODES["TimeoutError"]
-    if k == "convfail":
+    if k in ("convfail", "outfail"):
         return fin[1]
     raise ValueError(k)
 
@@ -185,6 +185,8 @@ def build_actor(w: World, case: dict, mid: str):
             raise make_exc(fin[1])
         if fin[0] == "timeout":
             await asyncio.sleep(3600)
+        if fin[0] == "outfail":
+            return object()          # the converter cannot encode it: convert_outputs raises TypeError
         raise AssertionError("unreachable")
 
     if fin[0] == "convfail":
@@ -384,7 +386,9 @@ async def run_chain(case: dict, loop, intern) -> dict:
     log = w.log
     mid, rid = "c1", "rc1"
 
-    async def act(x: int = 0):
+    from repid import MessageDependency
+
+    async def act(m: MessageDependency, x: int = 0):
         k = state["k"]
         state["k"] += 1
         log.add("actor_start", mid=mid, k=k)
@@ -392,6 +396,9 @@ async def run_chain(case: dict, loop, intern) -> dict:
         kind = pattern[k] if k < len(pattern) else "ok"
         if kind == "timeout":
             await asyncio.sleep(3600)
+        if kind == "force":
+            # an explicitly forced retry (allowed to go beyond the budget), zero back-off
+            await m.force_retry(timedelta(microseconds=case.get("force_backoff", 1000)))
         if d:
             await asyncio.sleep(d / 1_000_000)
         log.add("actor_end", mid=mid, k=k)
@@ -449,7 +456,8 @@ async def run_chain(case: dict, loop, intern) -> dict:
                          "started_at": starts[k]["t"] if k < len(starts) else None,
                          "op": None if t is None else t["op"], "op_at": None if t is None else t["t"],
                          "params_out": None if t is None else t["params"],
-                         "success": (pattern[k] == "ok") if k < len(pattern) else None})
+                         "success": (pattern[k] == "ok") if k < len(pattern) else None,
+                         "kind": pattern[k] if k < len(pattern) else None})
     return {"world": w, "p0": p0, "attempts": attempts, "stores": stores, "places": w.place_of("q", mid),
             "run_errors": run_errors, "start": start, "dues": dues, "copies": copies + [len(w.place_of("q", mid))], "bucket": await w.rb.get_bucket(rid), "job": job,
             "job_result": await job.result, "n_terms": len(terms), "n_consumes": len(consumes)}
@@ -465,6 +473,13 @@ def chain_terms(case: dict, r: dict, intern) -> list[tuple[str, list[int]]]:
             break
         if cur_p is None:
             cur_p = a["params_at_delivery"]
+        if a.get("kind") == "force":
+            # a forced retry is the actor's own eager action, not a decision of the ladder: it ends the segment compared
+            # with `chain`; what the ladder does with the over-budget counter afterwards is the next segment
+            if len(outs) > 0:
+                pass
+            cur_p, outs, obs = None, [], []
+            continue
         outs.append(f"({ct.B(a['success'])}, {ct.Z(a['op_at'])})")
         p_in, q = a["params_at_delivery"], a["params_out"]
         if a["op"] == "requeue" and q.retries.already_tried == p_in.retries.already_tried + 1:
